@@ -11,8 +11,8 @@
     assumed is listed at each theorem; the hypotheses the proofs forced are [mp_guard_ok] and
     [length data <= num_corners] (the decoders' `> num_corners` guards) — see the harness experiment. *)
 From Coq Require Import ZArith List Bool Lia.
-From Draco Require Import Base.Codec Model.Wrap Model.CornerTable Model.SeqAttr Model.BitCoders Model.Predict
-  Proofs.Wrap_proofs Proofs.Predict_proofs.
+From Draco Require Import Base.Codec Model.Wrap Model.Octahedron Model.CornerTable Model.SeqAttr Model.BitCoders Model.Predict
+  Proofs.Wrap_proofs Proofs.Octahedron_proofs Proofs.Predict_proofs.
 Import ListNotations.
 Local Open Scope Z_scope.
 
@@ -87,6 +87,44 @@ Theorem C01_pred_tex_coords_portable_roundtrip : forall ver md pos (data : list 
 Proof. exact tc_roundtrip. Qed.
 Print Assumptions C01_pred_tex_coords_portable_roundtrip.
 
+(** ---- the same generic theorem for an encoder loop that runs p = 0 … n-1 (the geometric normal encoder) ---- *)
+Theorem C01_pred_causal_roundtrip_ascending :
+  forall (E Pr C A W St : Type) (tenc : E -> Pr -> C) (tdec : Pr -> C -> E)
+         (Pe : list E -> nat -> A -> option (Pr * W)) (Pd : list E -> nat -> St -> option (Pr * St))
+         (D : E -> Prop) (PD : Pr -> Prop) (Rep : list W -> St -> Prop),
+  (forall o p, D o -> PD p -> tdec p (tenc o p) = o) ->
+  (forall pre i a p w, length pre = i -> Forall D pre -> Pe pre i a = Some (p, w) -> PD p) ->
+  (forall pre i a p w ws st, length pre = i -> Forall D pre -> Pe pre i a = Some (p, w) -> Rep (w :: ws) st ->
+     exists st', Pd pre i st = Some (p, st') /\ Rep ws st') ->
+  forall (data : list E) (choice : nat -> A) (corr : list C) (ws : list W) (st0 : St),
+  Forall D data -> causal_enc_up tenc Pe data choice = Some (corr, ws) -> Rep ws st0 ->
+  length corr = length data /\ length ws = length data /\
+  exists st', causal_dec tdec Pd corr st0 = Some (data, st') /\ Rep [] st'.
+Proof. exact @causal_prediction_roundtrip_up. Qed.
+Print Assumptions C01_pred_causal_roundtrip_ascending.
+
+(** ---- MeshPredictionSchemeGeometricNormal{Encoder,Decoder} with the canonicalized octahedral transform ----
+    for EVERY flip assignment [flip entry] (the encoder picks the sign whose correction is smaller), every table, maps
+    and positions, every quantization q the tool box accepts (2..30), canonical octahedral coordinates as originals
+    (what the C16 transform theorem asks; the encoder's portable normals are canonical), bitstream >= 2.2: the
+    corrections and the prediction data (max_quantized_value, center_value, RAnsBit block of the flip bits) decode to
+    the originals.  Uses C16 (oct_canon_roundtrip_machine), the exactness of CanonicalizeIntegerVector's int32 stores
+    (its result has L1 norm center_value) and ModMax;MakePositive = identity on corrections. *)
+Theorem C01_pred_geometric_normal_roundtrip : forall ver q md pos (data : list pt) flip corr bs rest,
+  514 <= ver -> Z.of_nat (length data) + 3 < 2 ^ 32 ->
+  (forall b, set_quantization_bits q = Some b -> Forall (canonical (ob_center b)) data) ->
+  gn_encode q md pos data flip = Some (corr, bs) ->
+  gn_decode ver md pos corr (bs ++ rest) = Some (data, rest) /\ length corr = length data.
+Proof. exact gn_roundtrip. Qed.
+Print Assumptions C01_pred_geometric_normal_roundtrip.
+
+(** CanonicalizeIntegerVector returns a vector of L1 norm center_value for EVERY integer input (so its int32 stores
+    are exact and the octahedral coordinates derived from it, for either sign, lie in the square). *)
+Theorem C01_pred_canonicalize_integer_vector_norm : forall b v, 0 <= ob_center b ->
+  let '(x, y, z) := canonicalize_int_vec b v in Z.abs x + Z.abs y + Z.abs z = ob_center b.
+Proof. exact canonicalize_int_vec_bounds. Qed.
+Print Assumptions C01_pred_canonicalize_integer_vector_norm.
+
 (** ---- the well-formedness the C++ assumes ([md_wf]: array bounds and non-negative entry ids only; nothing about the
     order of the entries) is enough for the parallelogram encoder to read in bounds: it can only fail on a value
     range too wide for the wrap transform. ---- *)
@@ -114,6 +152,62 @@ Theorem C01_pred_constrained_multi_encoder_no_overflow_refuted :
     mp_parallelograms md (firstn i data) i = Some preds /\ mp_sum_no_ub 1 preds = false.
 Proof. exact mp_encoder_overflow_witness. Qed.
 Print Assumptions C01_pred_constrained_multi_encoder_no_overflow_refuted.
+
+(** ---- signed 64-bit arithmetic of the portable tex-coords predictor (after fix 4112635) ----
+    [tc_no_ub enc …]: every SIGNED int64 operation of ComputePredictedValue's oriented branch (differences, Dot /
+    SquaredNorm products and partial sums, std::abs, the three guarded products, the projection quotient, x_pos,
+    the residual and its SquaredNorm, cx_uv * norm; with enc = true also the ENCODER's signed x_uv +/- cx_uv and the
+    divisions) stays in int64, evaluated in exact arithmetic in program order up to the first `return false`.
+
+    Parametric bound: positions in [0,P), uvs in [0,U), 48 P^2 and U 2^32 within int64 (decoder and encoder common
+    part; needs IntSqrt < 2^32, proved), and for the encoder's extra additions 6 U P^2 + U 2^32 within int64. *)
+Theorem C01_pred_tex_coords_no_signed_overflow : forall P U,
+  0 < P -> 0 < U -> 48 * (P * P) <= i64_max -> U * 2 ^ 32 <= i64_max ->
+  forall enc n_uv p_uv tip nxt prv,
+  (enc = true -> 6 * (U * (P * P)) + U * 2 ^ 32 <= i64_max) ->
+  pos_ok P tip -> pos_ok P nxt -> pos_ok P prv -> uv_ok U n_uv -> uv_ok U p_uv ->
+  tc_no_ub enc n_uv p_uv tip nxt prv = true.
+Proof. exact tc_no_ub_bounded. Qed.
+Print Assumptions C01_pred_tex_coords_no_signed_overflow.
+
+(** the DECODER at the factory's limit (21-bit positions, 21-bit uvs): no signed overflow *)
+Theorem C01_pred_tex_coords_decoder_no_overflow_21 : forall n_uv p_uv tip nxt prv,
+  pos_ok (2 ^ 21) tip -> pos_ok (2 ^ 21) nxt -> pos_ok (2 ^ 21) prv -> uv_ok (2 ^ 21) n_uv -> uv_ok (2 ^ 21) p_uv ->
+  tc_no_ub false n_uv p_uv tip nxt prv = true.
+Proof. exact tc_no_ub_decoder_21. Qed.
+Print Assumptions C01_pred_tex_coords_decoder_no_overflow_21.
+
+(** the ENCODER up to 20-bit positions and 20-bit uvs (2 * pos_bits + uv_bits <= 60): no signed overflow *)
+Theorem C01_pred_tex_coords_encoder_no_overflow_20 : forall n_uv p_uv tip nxt prv,
+  pos_ok (2 ^ 20) tip -> pos_ok (2 ^ 20) nxt -> pos_ok (2 ^ 20) prv -> uv_ok (2 ^ 20) n_uv -> uv_ok (2 ^ 20) p_uv ->
+  tc_no_ub true n_uv p_uv tip nxt prv = true.
+Proof. exact tc_no_ub_encoder_20. Qed.
+Print Assumptions C01_pred_tex_coords_encoder_no_overflow_20.
+
+(** …but NOT at the limit the encoder factory allows (pos_quant <= 21, 2 * pos_quant + uv_quant < 64): with 21-bit
+    positions and 21-bit uvs the ENCODER's signed x_uv + cx_uv overflows (the decoder, which does it in uint64_t,
+    does not).  Reproduced on the library under UBSan (vector_d.h:132 operator+ from
+    mesh_prediction_scheme_tex_coords_portable_predictor.h, one triangle, positions (0,0,0) (2097151,0,0)
+    (2097151,4,0), uvs (1048576,0) (2097151,2097151)). *)
+Theorem C01_pred_tex_coords_encoder_no_overflow_21_refuted :
+  exists n_uv p_uv tip nxt prv,
+    pos_ok (2 ^ 21) tip /\ pos_ok (2 ^ 21) nxt /\ pos_ok (2 ^ 21) prv /\ uv_ok (2 ^ 21) n_uv /\ uv_ok (2 ^ 21) p_uv /\
+    tc_no_ub true n_uv p_uv tip nxt prv = false /\ tc_no_ub false n_uv p_uv tip nxt prv = true.
+Proof. exact tc_no_ub_encoder_21_witness. Qed.
+Print Assumptions C01_pred_tex_coords_encoder_no_overflow_21_refuted.
+
+(** outside every quantization (raw int32 positions): Dot / SquaredNorm of a position difference >= 2^31.5 overflows,
+    encoder and decoder alike (UBSan: vector_d.h:253) *)
+Theorem C01_pred_tex_coords_no_overflow_int32_refuted :
+  tc_no_ub false (0, 0) (1, 0) (5, 4, 0) (-2147483648, 0, 0) (2147483647, 0, 0) = false.
+Proof. exact tc_no_ub_int32_witness. Qed.
+Print Assumptions C01_pred_tex_coords_no_overflow_int32_refuted.
+
+(** IntSqrt (core/math_utils.h) returns a value below 2^32 for every uint64 argument (no fuel exhaustion needed:
+    if the model returns a value at all it is in range; used for cx_uv * norm above). *)
+Theorem C01_pred_int_sqrt_below_2_32 : forall n r, 0 <= n < 2 ^ 64 -> int_sqrt n = Some r -> 0 <= r < 2 ^ 32.
+Proof. exact int_sqrt_bound. Qed.
+Print Assumptions C01_pred_int_sqrt_below_2_32.
 
 (** ---- non-vacuity: a strip of three triangles, five entries in traversal order ---- *)
 Definition ex_md : mesh_data :=
@@ -176,3 +270,37 @@ Proof.
     repeat (constructor; [eexists; split; [reflexivity|lia]|]). constructor.
   - vm_compute. discriminate.
 Qed.
+
+(** geometric normal, q = 4 (center 7): the strip with its positions, canonical originals, alternating flips *)
+Definition gn_data : list pt := [(7, 7); (3, 9); (14, 14); (9, 14); (5, 2)].
+Example C01_pred_example_geometric_normal :
+  Forall (canonical 7) gn_data /\
+  gn_normal ex_md ex_pos 5 = Some (-20, -40, 200) /\
+  gn_encode 4 ex_md ex_pos gn_data (fun _ => false) =
+    Some ([(7, 0); (5, 11); (0, 7); (14, 3); (11, 14)], [15; 0; 0; 0; 7; 0; 0; 0; 255; 2; 85; 64]) /\
+  (forall enc, gn_encode 4 ex_md ex_pos gn_data Nat.even = Some enc ->
+     fst enc = [(7, 0); (5, 11); (14, 8); (14, 3); (1, 3)] /\
+     gn_decode 514 ex_md ex_pos (fst enc) (snd enc ++ [7; 7]) = Some (gn_data, [7; 7])) /\
+  gn_encode 4 ex_md ex_pos gn_data Nat.even <> None.
+Proof.
+  split; [repeat (constructor; [split; [unfold in_square; cbn; lia|vm_compute; reflexivity]|]); constructor|].
+  split; [vm_compute; reflexivity|]. split; [vm_compute; reflexivity|].
+  split; [intros enc H; vm_compute in H; injection H as <-; vm_compute; split; reflexivity|].
+  vm_compute; discriminate.
+Qed.
+
+(** why the ORDER canonicalize -> negate -> convert matters: a "curtain" normal (z = 0, x and y not 0) whose
+    canonicalisation leaves a rounding residue in z; negating first gives different octahedral coordinates *)
+Example C01_pred_example_flip_order :
+  let b := obox_of_center 7 in
+  canonicalize_int_vec b (8, -21, 0) = (1, -5, 1) /\
+  int_vec_to_oct b (v3_neg (canonicalize_int_vec b (8, -21, 0))) = (13, 5) /\
+  int_vec_to_oct b (canonicalize_int_vec b (v3_neg (8, -21, 0))) = (13, 9).
+Proof. vm_compute. repeat split; reflexivity. Qed.
+
+(** no-overflow predicate on the example triangle (0,0,0) (10,0,0) (0,10,0): satisfied, and the trace is not empty *)
+Example C01_pred_example_tc_no_ub :
+  tc_no_ub true (10, 100) (20, 110) (0, 10, 0) (0, 0, 0) (10, 0, 0) = true /\
+  length (tc_signed_trace true (10, 100) (20, 110) (0, 10, 0) (0, 0, 0) (10, 0, 0)) = 58%nat /\
+  int_sqrt 1000000 = Some 1000 /\ int_sqrt 18446744073709551615 = Some 4294967295.
+Proof. vm_compute. repeat split; reflexivity. Qed.
